@@ -7,11 +7,12 @@
           g1 | g0     application: SendRequest("req", wantReply)
           q<h>.1|.0   application: channel SendRequest on its h-th channel
           k<h>        application: Close on its h-th channel
-          x           the peer closes the connection
+          e<h>        application: CloseWrite on its h-th channel
+          x | z       the peer closes the connection | the application calls Close on the connection
   trace : one segment per step, `|`-separated: `-` or a comma list, in order:
           packets the real side wrote   w90:<id> w91:<recipient>:<sender> w92:<recipient>:<reason> w93:<r>:<n> w97:<r>
                                         w98:<r>:<want> w99:<r> w100:<r> w80:<want> w81 w82 w193:<len>
-          things delivered to the application  nc:<type> gr:<name>:<want> cr:<id>:<name>:<want>
+          things delivered to the application  nc:<type>:<len(ExtraData)> gr:<name>:<want> cr:<id>:<name>:<want>
           then (sorted) calls that returned  O<k>=ok|fail:<reason>|err  G<k>=ok|fail|err|nowait  R<k>=…|und  K<k>=ok|err|und
           END (the mux loop ended) followed by shut=ok (every channel, request stream and queue found closed)
           BLOCKED (the mux loop consumed the packet and never came back for the next one); after that the peer's
@@ -45,6 +46,14 @@ def stepTok (m : Mux) (i : Nat) (tok : String) : Except String (Mux × String) :
         let (m, comp) := completions m
         .ok (m, seg (ev ++ sortStrs comp))
   | ['x'] => if m.ended then .ok (m, "-") else .ok (endMux m [])
+  | ['z'] => if m.ended then .ok (m, "-") else .ok (endMux m [])      -- local Conn.Close(): the loop ends the same way
+  | 'e' :: rest =>
+    match (String.ofList rest).toNat? with
+    | none => .error "bad-op"
+    | some h =>
+      match localEOF m i h with
+      | none => .ok (m, "-")
+      | some (m, ev) => .ok (m, seg ev)
   | ['o'] =>
     let (m, ev) := localOpen m i
     let (m, comp) := completions m
